@@ -77,6 +77,10 @@ def run(tier, rep):
         for mid in (0, 999, 1069, 1070, 1230 + 7, 4075, 4095, rnd.randrange(2000, 3900)):
             body = bytes([mid >> 4, (mid & 0xF) << 4 | rnd.randrange(16)]) + bytes(rnd.randrange(256) for _ in range(n - 2))
             cases.append((str(mid), f"unknown-len{n}", body))
+    from .. import stream_corpus
+
+    for pl in stream_corpus.framelike_payloads(rnd) + stream_corpus.special_int_payloads(rnd):
+        cases.append(("special", "special", pl))
     # maximal messages of defined types
     for ident in (["1004", "1077", "1127", "4076_201", "1029", "1033"] if quick else sorted(corp.bundle["defs"])[::3]):
         pl, _ = gen_messages.build(ident, corp.bundle, rnd, values="random", count="max", mask="dense")
